@@ -19,6 +19,7 @@ import (
 	ethtypes "github.com/ethereum/go-ethereum/core/types"
 	"github.com/ethereum/go-ethereum/crypto"
 
+	tokenmod "mods.irisnet.org/modules/token"
 	"mods.irisnet.org/modules/token/contracts"
 	tokenkeeper "mods.irisnet.org/modules/token/keeper"
 	tokentypes "mods.irisnet.org/modules/token/types"
@@ -218,14 +219,30 @@ func (r *R) paramsStr(p v1.Params) string {
 		p.MintTokenFeeRatio.BigInt(), b01(p.EnableErc20), b01(p.Beacon != ""))
 }
 
+func (r *R) tokenStr(t v1.Token) string {
+	return fmt.Sprintf("%s:%s:%d:%s:%d:%d:%d:%s:%s", t.Symbol, us(t.Name), t.Scale, t.MinUnit,
+		t.InitialSupply, t.MaxSupply, b01(t.Mintable), r.symAcc(t.Owner), r.kname(t.Contract))
+}
+
+// genesisLine renders the real exported genesis in ITS OWN order (the order is compared).
+func (r *R) genesisLine(gs *v1.GenesisState) string {
+	var toks, burned []string
+	for _, t := range gs.Tokens {
+		toks = append(toks, r.tokenStr(t))
+	}
+	for _, c := range gs.BurnedCoins {
+		burned = append(burned, fmt.Sprintf("%s:%s", c.Denom, c.Amount))
+	}
+	return fmt.Sprintf("params=%s toks=%s burned=%s", r.paramsStr(gs.Params), strings.Join(toks, ","), strings.Join(burned, ","))
+}
+
 // state renders the canonical observation of the module state.
 func (r *R) state(ctx sdk.Context) string {
 	k := r.env.Token
 	var toks, mu, own, ctr, burned, bal, sup, evm []string
 	seenMu := map[string]bool{}
 	for _, t := range r.tokens(ctx) {
-		toks = append(toks, fmt.Sprintf("%s:%s:%d:%s:%d:%d:%d:%s:%s", t.Symbol, us(t.Name), t.Scale, t.MinUnit,
-			t.InitialSupply, t.MaxSupply, b01(t.Mintable), r.symAcc(t.Owner), r.kname(t.Contract)))
+		toks = append(toks, r.tokenStr(t))
 		if !seenMu[t.MinUnit] {
 			seenMu[t.MinUnit] = true
 			sup = append(sup, fmt.Sprintf("%s:%s", t.MinUnit, r.env.Supply(ctx, t.MinUnit)))
@@ -622,6 +639,30 @@ func (r *R) Exec(ctx sdk.Context, line string) (sdk.Context, string) {
 	f := strings.Fields(line)
 	a := hx.Args(f[2:])
 	switch f[1] {
+	case "export": // the real ExportGenesis document (in its own order) and the real ValidateGenesis verdict
+		gs := tokenmod.ExportGenesis(ctx, r.env.Token)
+		v := "ok"
+		if err := v1.ValidateGenesis(*gs); err != nil {
+			v = "err"
+		}
+		return ctx, "ok validate=" + v + " " + r.genesisLine(gs)
+	case "reimport": // wipe the module store, then the real InitGenesis of the real export
+		gs := tokenmod.ExportGenesis(ctx, r.env.Token)
+		class, _ := hx.Try(ctx, func(c sdk.Context) error {
+			st := c.KVStore(r.key)
+			it := storetypes.KVStorePrefixIterator(st, nil)
+			var keys [][]byte
+			for ; it.Valid(); it.Next() {
+				keys = append(keys, append([]byte{}, it.Key()...))
+			}
+			it.Close()
+			for _, k := range keys {
+				st.Delete(k)
+			}
+			tokenmod.InitGenesis(c, r.env.Token, *gs)
+			return nil
+		})
+		return ctx, class + " " + r.state(ctx)
 	case "lossless":
 		return ctx, lossless(a)
 	case "fee_factor":
